@@ -3,6 +3,9 @@ package genwl
 import (
 	"bytes"
 	"fmt"
+	"google.golang.org/protobuf/reflect/protodesc"
+	"google.golang.org/protobuf/reflect/protoregistry"
+	"google.golang.org/protobuf/types/descriptorpb"
 	"reflect"
 	"sort"
 
@@ -351,6 +354,11 @@ func runC12(cfg *config, res *monitor.Result) {
 					break
 				}
 			}
+			// Google V2: an extension type that is NOT in the global registry (built at run time from a descriptor, as
+			// protocompile/buf/dynamic clients do). Set/Has/ClearAll/Has/Marshal must treat it like any other.
+			if s == 0 && t.pkg.Flavour == "gv2" {
+				evals += c12DynamicExtension(t, res)
+			}
 			if setSeen && clearSeen {
 				classes[fmt.Sprintf("%s/fast=%v/%s/%s", t.pkg.Flavour, t.pkg.Fast, t.pkg.Unit, opBigrams(trace))]++
 			}
@@ -394,4 +402,84 @@ func runC12(cfg *config, res *monitor.Result) {
 	}
 	res.Eval(evals)
 	res.MergeClasses(classes)
+}
+
+func c12DynamicExtension(t target, res *monitor.Result) (evals int64) {
+	pm, ok := t.pkg.New(t.md.FullName()).(proto.Message)
+	if !ok {
+		return 0
+	}
+	gmd := pm.ProtoReflect().Descriptor()
+	var nums []int32
+	for n := int32(999); n > 100 && len(nums) < 2; n-- {
+		if gmd.ExtensionRanges().Has(protoreflect.FieldNumber(n)) {
+			used := false
+			for _, x := range t.pkg.Exts[t.md.FullName()] {
+				used = used || int32(x.TypeDescriptor().Number()) == n
+			}
+			if !used {
+				nums = append(nums, n)
+			}
+		}
+	}
+	if len(nums) < 2 {
+		return 0
+	}
+	lbl := descriptorpb.FieldDescriptorProto_LABEL_OPTIONAL
+	fdp := &descriptorpb.FileDescriptorProto{
+		Name: proto.String("verifdyn/" + t.pkg.GoPkg + "_" + string(gmd.Name()) + ".proto"), Package: proto.String("verifdyn." + t.pkg.GoPkg),
+		Dependency: []string{gmd.ParentFile().Path()},
+		Extension: []*descriptorpb.FieldDescriptorProto{
+			{Name: proto.String("dyn_note"), Number: proto.Int32(nums[0]), Label: lbl.Enum(), Type: descriptorpb.FieldDescriptorProto_TYPE_STRING.Enum(), Extendee: proto.String("." + string(gmd.FullName()))},
+			{Name: proto.String("dyn_level"), Number: proto.Int32(nums[1]), Label: lbl.Enum(), Type: descriptorpb.FieldDescriptorProto_TYPE_INT32.Enum(), Extendee: proto.String("." + string(gmd.FullName()))},
+		},
+	}
+	fd, err := protodesc.NewFile(fdp, protoregistry.GlobalFiles)
+	if err != nil {
+		res.Inconc("dynamic extension file for " + string(gmd.FullName()) + ": " + err.Error())
+		return 0
+	}
+	note, level := dynamicpb.NewExtensionType(fd.Extensions().Get(0)), dynamicpb.NewExtensionType(fd.Extensions().Get(1))
+	viol := func(failure, what string) {
+		res.Violate("C12:gv2:dynamic-extension-type:"+failure, fmt.Sprintf("%s (%s), extension types built at run time (not in the global registry): %s", t.md.FullName(), t.pkg.GoPkg, what),
+			map[string]any{"package": t.pkg.GoPkg, "message": string(t.md.FullName()), "numbers": nums})
+	}
+	pi := monitor.Try(func() {
+		evals = 6
+		if err := csproto.SetExtension(pm, note, "hello"); err != nil {
+			viol("SetExtension:error", "SetExtension failed: "+err.Error())
+			return
+		}
+		if err := csproto.SetExtension(pm, level, int32(5)); err != nil {
+			viol("SetExtension:error", "SetExtension failed: "+err.Error())
+			return
+		}
+		if !csproto.HasExtension(pm, note) || !csproto.HasExtension(pm, level) {
+			viol("HasExtension:false-after-set", "HasExtension is false after SetExtension")
+		}
+		if v, err := csproto.GetExtension(pm, note); err != nil || v != "hello" {
+			viol("GetExtension:differs", fmt.Sprintf("GetExtension returned (%v, %v) after SetExtension(\"hello\")", v, err))
+		}
+		csproto.ClearExtension(pm, level)
+		if csproto.HasExtension(pm, level) || !csproto.HasExtension(pm, note) {
+			viol("ClearExtension", "after ClearExtension of one extension: HasExtension is wrong for it or for the other one")
+		}
+		_ = csproto.SetExtension(pm, level, int32(6))
+		csproto.ClearAllExtensions(pm)
+		if csproto.HasExtension(pm, note) || csproto.HasExtension(pm, level) {
+			viol("ClearAllExtensions:still-set", "HasExtension is still true after ClearAllExtensions")
+		}
+		visited := 0
+		_ = csproto.RangeExtensions(pm, func(interface{}, string, int32) error { visited++; return nil })
+		if visited != 0 {
+			viol("ClearAllExtensions:still-ranged", fmt.Sprintf("RangeExtensions still visits %d extension(s) after ClearAllExtensions", visited))
+		}
+		if b, err := csproto.Marshal(pm); err != nil || len(b) != 0 {
+			viol("ClearAllExtensions:still-encoded", fmt.Sprintf("csproto.Marshal returns %d bytes (err=%v) for a message whose only content was cleared by ClearAllExtensions", len(b), err))
+		}
+	})
+	if pi != nil {
+		viol("panic", "an extension accessor panicked: "+pi.Value)
+	}
+	return evals
 }
